@@ -34,6 +34,7 @@ type Obligation struct {
 	ExpectSat bool
 	ct        *Contract
 	clause    *Clause
+	fg        *FnGen
 }
 
 // ---------------------------------------------------------------- state generations
@@ -130,6 +131,16 @@ type FnGen struct {
 	quantIdx   bool
 	// free-variable bindings of a closure about to be inlined
 	pendingBindings []*Term
+	// noDefs: no definitional constants may be introduced (terms under a quantifier's bound variables)
+	noDefs bool
+	// SMT function definitions of inlined leaf functions used in contracts
+	defs    map[string]*FunDef
+	defMemo map[string]*FunDef
+	// de-duplication of assumptions
+	assumeSeen    map[string]bool
+	assumeSeenLen int
+	// candidate witnesses for integer existentials (loop indices), see ceval quant
+	witnesses []*Term
 }
 
 func (fg *FnGen) note(s string) { fg.notes[s] = true }
@@ -169,7 +180,21 @@ func (fg *FnGen) assume(t *Term) {
 	if t == nil || t == True {
 		return
 	}
+	// identical assumptions (e.g. the post of a pure function applied to the same arguments again) are kept once;
+	// the index is rebuilt when the list was truncated by a contract evaluation under a binder
+	if fg.assumeSeen == nil || fg.assumeSeenLen > len(fg.assumes) {
+		fg.assumeSeen = map[string]bool{}
+		for _, a := range fg.assumes {
+			fg.assumeSeen[a.Key()] = true
+		}
+	}
+	k := t.Key()
+	if fg.assumeSeen[k] {
+		return
+	}
+	fg.assumeSeen[k] = true
 	fg.assumes = append(fg.assumes, t)
+	fg.assumeSeenLen = len(fg.assumes)
 }
 func (fg *FnGen) assumeIf(guard, t *Term) { fg.assume(Implies(guard, t)) }
 
@@ -186,7 +211,7 @@ func (fg *FnGen) addObl(kind, label string, guard, goal *Term, pos token.Pos, sr
 	}
 	o := &Obligation{
 		Name: fg.name + "#" + label, Fn: fg.name, Kind: kind,
-		Assumes: append([]*Term{}, fg.assumes...), Goal: full, Inputs: fg.inputs, Src: src, ct: fg.ct,
+		Assumes: append([]*Term{}, fg.assumes...), Goal: full, Inputs: fg.inputs, Src: src, ct: fg.ct, fg: fg,
 	}
 	if pos.IsValid() {
 		o.Pos = fg.g.prog.Fset.Position(pos).String()
@@ -276,8 +301,12 @@ func (fg *FnGen) lookupGen(g int, name, sort string) *Term {
 			for i := len(vals) - 2; i >= 0; i-- {
 				def = Ite(gi.preds[i].cond, vals[i], def)
 			}
-			fg.assume(Eq(c, def))
-			r = c
+			if fg.noDefs {
+				r = def
+			} else {
+				fg.assume(Eq(c, def))
+				r = c
+			}
 		}
 	}
 	fg.memo[key] = r
@@ -560,7 +589,7 @@ func (fg *FnGen) runBlocks(fr *Frame, entry *State, entryReach *Term) {
 				continue // unreachable
 			}
 			r := Or(rs...)
-			if len(rs) > 1 || (r.Kind == KApp && len(r.Args) > 1) {
+			if !fg.noDefs && (len(rs) > 1 || (r.Kind == KApp && len(r.Args) > 1)) {
 				c := Const(fmt.Sprintf("%sreach_b%d", fr.prefix, b.Index), SBool)
 				fg.assume(Eq(c, r))
 				r = c
